@@ -73,6 +73,22 @@ def compare_parts(test):
     return None
 
 
+def at_least(test, var, k):
+    """True if ``test`` is (an orientation / strictness variant of) var >= k
+    for an integer constant k:  var >= k | var > k-1 | k <= var | k-1 < var."""
+    from .bounds import facts
+    f = facts(test, var)
+    t = f["T"]
+    return len(t) == 1 and t[0].get("lo") == (None, k) and "hi" not in t[0]
+
+
+def at_most(test, var, k):
+    from .bounds import facts
+    f = facts(test, var)
+    t = f["T"]
+    return len(t) == 1 and t[0].get("hi") == (None, k) and "lo" not in t[0]
+
+
 def contains_text(node, text):
     for n in ast.walk(node):
         if isinstance(n, (ast.expr,)) and unparse(n) == text:
